@@ -426,9 +426,7 @@ func (p *Proxy) handleConnectRequest(ctx *Context, req *http.Request, session *S
 		log.Errorf("martian: got error while flushing response back to client: %v", err)
 	}
 
-	cbw := bufio.NewWriter(cconn)
 	cbr := bufio.NewReader(cconn)
-	defer cbw.Flush()
 
 	copySync := func(w io.Writer, r io.Reader, donec chan<- bool) {
 		if _, err := io.Copy(w, r); err != nil && err != io.EOF {
@@ -440,8 +438,11 @@ func (p *Proxy) handleConnectRequest(ctx *Context, req *http.Request, session *S
 	}
 
 	donec := make(chan bool, 2)
-	go copySync(cbw, brw, donec)
-	go copySync(brw, cbr, donec)
+	// Copy to the connections themselves: a bufio.Writer in between holds back
+	// whatever does not fill its buffer (for instance bytes the client sent
+	// together with the CONNECT request) until the tunnel ends.
+	go copySync(cconn, brw, donec)
+	go copySync(conn, cbr, donec)
 
 	log.Debugf("martian: established CONNECT tunnel, proxying traffic")
 	<-donec
